@@ -408,6 +408,7 @@ def run(ctx):
     capa_params_stream(ctx)
     cross_instance_stream(ctx)
     hyperparams_and_input_untouched_stream(ctx)
+    shared_component_stream(ctx)
     reuse_stream(ctx, "StatThresholdAnomaliser(PELT)", lambda: StatThresholdAnomaliser(PELT(min_segment_length=2), stat_lower=-1.0, stat_upper=1.0), ctx.n(4, 30),
                  p_choices=(1,), other_shape=False)
 
@@ -527,6 +528,75 @@ def hyperparams_and_input_untouched_stream(ctx):
                 continue
             if bad:
                 ctx.violation(bad[0], inp, {"what": bad[1], "detector": nm})
+
+
+def _outcome(f):
+    try:
+        return ("ok", f())
+    except Exception as ex:  # noqa
+        return ("raised", type(ex).__name__)
+
+
+def shared_component_stream(ctx):
+    """A component object (a cost whose minimum size depends on the fitted data; a change detector wrapped by two anomalisers) used by SEVERAL composites, or by one composite
+    on series of different width, carries no information from one use to the next: every outcome -- a result or the class of the exception -- equals that of freshly built
+    objects given the same hyper-parameters, training data and input."""
+    from skchange.anomaly_detectors import CircularBinarySegmentation, StatThresholdAnomaliser
+    from skchange.change_detectors import PELT, MovingWindow, SeededBinarySegmentation
+    from skchange.costs import GaussianCovCost
+    rng = ctx.rng
+
+    def data(n, p, at):
+        x = np.asarray([[rng.gauss(0, 1) for _ in range(p)] for _ in range(n)])
+        x[at:] += 6.0
+        return pd.DataFrame(x, columns=[f"v{j}" for j in range(p)])
+
+    mks = [("MovingWindow", lambda c, k: MovingWindow(change_score=c, bandwidth=k)), ("PELT", lambda c, k: PELT(cost=c, min_segment_length=k)),
+           ("SeededBinarySegmentation", lambda c, k: SeededBinarySegmentation(change_score=c, min_segment_length=k)),
+           ("CircularBinarySegmentation", lambda c, k: CircularBinarySegmentation(anomaly_score=c, min_segment_length=k, max_interval_length=40))]
+    for rep in range(ctx.n(2, 8)):
+        wide, narrow = data(rng.randint(60, 80), 4, 30), data(rng.randint(50, 70), rng.choice([1, 2]), 25)
+        for nm, mk in mks:
+            for scenario in ("one detector: wide series first, then a narrow one", "one cost object shared by two detectors", "a cost fitted by the user beforehand"):
+                k_small, k_big = 3, 6
+                inp = {"detector": nm, "scenario": scenario, "wide": wide.to_numpy().tolist(), "narrow": narrow.to_numpy().tolist(), "k": k_small}
+                ctx.case({"shared": nm, "rep": rep, "scenario": scenario}, nontrivial=True)
+                ctx.count("shared_component", scenario.split(":")[0])
+                want = _outcome(lambda: canon(mk(GaussianCovCost(), k_small).fit(narrow).predict(narrow)))
+                cost = GaussianCovCost()
+                if scenario.startswith("one detector"):
+                    d = mk(cost, k_small)
+                    _outcome(lambda: d.fit(wide).predict(wide))       # k_small < p + 1: this may legitimately be rejected
+                elif scenario.startswith("one cost"):
+                    _outcome(lambda: mk(cost, k_big).fit(wide).predict(wide))
+                    d = mk(cost, k_small)
+                else:
+                    cost.fit(wide.to_numpy())
+                    d = mk(cost, k_small)
+                got = _outcome(lambda: canon(d.fit(narrow).predict(narrow)))
+                if got != want:
+                    ctx.violation(f"{nm}(GaussianCovCost, {k_small}) on a {narrow.shape[1]}-column series, {scenario}: {got[0]} {str(got[1])[:120]}; freshly built objects: {want[0]} "
+                                  f"{str(want[1])[:120]}", inp, {"what": "shared-component-state", "detector": nm})
+        # two anomalisers around ONE change detector object
+        A, B = data(rng.randint(60, 80), 1, 30), data(rng.randint(120, 160), 1, 70)
+        for nm, mkcd in [("PELT", lambda: PELT(min_segment_length=2)), ("MovingWindow(tuned)", lambda: MovingWindow(bandwidth=5, threshold_scale=None, level=0.05)),
+                         ("SeededBinarySegmentation", lambda: SeededBinarySegmentation(min_segment_length=2))]:
+            ctx.case({"shared-cd": nm, "rep": rep}, nontrivial=True)
+            ctx.count("shared_component", "two anomalisers, one detector")
+            inp = {"wrapped": nm, "A": A.to_numpy().tolist(), "B": B.to_numpy().tolist()}
+            cd = mkcd()
+            want = _outcome(lambda: canon(StatThresholdAnomaliser(mkcd(), stat_lower=-1.0, stat_upper=1.0).fit(A).predict(A)))
+            a1 = StatThresholdAnomaliser(cd, stat_lower=-1.0, stat_upper=1.0)
+            a2 = StatThresholdAnomaliser(cd, stat_lower=-1.0, stat_upper=1.0)
+            r1 = _outcome(lambda: canon(a1.fit(A).predict(A)))
+            _outcome(lambda: a2.fit(B).predict(B))
+            r1b = _outcome(lambda: canon(a1.predict(A)))
+            if r1 != want or r1b != want:
+                ctx.violation(f"StatThresholdAnomaliser({nm}): two anomalisers built around one detector object; the first, fitted on A, reports {str(r1[1])[:100]} and, after the second "
+                              f"was fitted on another series, {str(r1b[1])[:100]}; a fresh anomaliser fitted on A reports {str(want[1])[:100]}", inp,
+                              {"what": "shared-component-state", "detector": "StatThresholdAnomaliser"})
+            elif cd.is_fitted:
+                ctx.violation(f"StatThresholdAnomaliser({nm}).fit fitted the caller's own detector object (is_fitted is now True)", inp, {"what": "caller-component-fitted"})
 
 
 def capa_params_stream(ctx):
